@@ -4,7 +4,7 @@ EXTENDS CronContract, TraceLib
 Trace == LoadTrace("trace.ndjson")
 Starts == {i \in 1..Len(Trace) : Trace[i].ev = "reset"}
 VARIABLES l, c
-TInit == l \in Starts /\ c = CInit(Trace[l].loc)
+TInit == l \in Starts /\ c = CInitC(Trace[l].loc, Trace[l].chain)
 TNext == /\ ~IsBad(c)
          /\ l + 1 <= Len(Trace)
          /\ Trace[l + 1].ev # "reset"
